@@ -59,6 +59,11 @@ def o91(ctx):
         if bt == "whole":
             cases.append(("centre inside but box leaves through the lower x face", {"x": 3.0}, False))
             cases.append(("centre inside but box leaves through the upper z face", {"z": base["dim:z"] - 3.0}, False))
+            # odd box sizes: the half extent is rounded up (box 5 -> 3 voxels, box 1 -> 1 voxel)
+            cases.append(("odd box (5) reaching the upper z face", {"box_size": 5.0, "z": base["dim:z"] - 3.0}, False))
+            cases.append(("odd box (5) one voxel further in", {"box_size": 5.0, "z": base["dim:z"] - 4.0}, True))
+            cases.append(("box of one voxel on the last x plane", {"box_size": 1.0, "x": base["dim:x"] - 1.0}, False))
+            cases.append(("box of one voxel one plane further in", {"box_size": 1.0, "x": base["dim:x"] - 2.0}, True))
         # non-cubic: a z that fits the y dimension but not the z dimension
         cases.append(("z beyond dim_z but below dim_y", {"z": 100.0}, False))
         cases.append(("y inside dim_y but beyond dim_z", {"y": 100.0}, True))
